@@ -21,7 +21,7 @@ var (
 	recO = vh.NewRecorder("C13", "open-confinement",
 		"shim open request bodies from URL syntax classes {absolute ws/wss/http(s) with foreign hosts, scheme-relative, path-only, opaque "+
 			"'scheme:rest', empty, userinfo, IPv6 literals, odd and huge ports, fragments, encoded slashes, backslashes, control bytes} and "+
-			"arbitrary byte strings, against websockets.Proxy in-process; websocket.DefaultDialer.NetDialContext is replaced by a recorder that "+
+			"arbitrary byte strings, with and without --rewrite-websocket-host, foreign Host headers on the open request and backend paths that answer the handshake with a redirect, against websockets.Proxy in-process; websocket.DefaultDialer.NetDialContext is replaced by a recorder that "+
 			"refuses every address other than the backend's; oracle: every recorded dial address equals the configured backend host, and when "+
 			"the handshake reaches the backend its path and query are those of the supplied URL; non-trivial = body parses as a URL naming a "+
 			"host other than the backend or having an opaque part; distinct = SHA-256 of the body")
@@ -35,11 +35,15 @@ func TestMain(m *testing.M) { vh.Main(m, recO, recP) }
 
 var (
 	rigOnce sync.Once
-	rig     *shimrig.Rig
+	rig     *shimrig.Rig // plain configuration
+	rigRW   *shimrig.Rig // --rewrite-websocket-host
 )
 
 func getRig() *shimrig.Rig {
-	rigOnce.Do(func() { rig = shimrig.New(shimrig.Options{RecordDials: true}) })
+	rigOnce.Do(func() {
+		rig = shimrig.New(shimrig.Options{RecordDials: true})
+		rigRW = shimrig.New(shimrig.Options{RecordDials: true, RewriteHost: true})
+	})
 	return rig
 }
 
@@ -80,9 +84,28 @@ func genBody(t *rapid.T) string {
 	}
 }
 
-func runOpen(body string) vh.Outcome {
+// OpenCase is one shim open request.
+type OpenCase struct {
+	Body        string `json:"body"`
+	RewriteHost bool   `json:"rewrite_websocket_host,omitempty"`
+	Host        string `json:"request_host,omitempty"`
+}
+
+func runOpen(body string) vh.Outcome { return runOpenCase(&OpenCase{Body: body}) }
+
+func runOpenCase(oc *OpenCase) vh.Outcome {
 	r := getRig()
+	if oc.RewriteHost {
+		r = rigRW
+	}
+	body := oc.Body
 	o := vh.Outcome{}
+	if oc.RewriteHost {
+		o.Classes = append(o.Classes, "rewrite-websocket-host")
+	}
+	if strings.Contains(body, "/redir-") {
+		o.Classes = append(o.Classes, "backend-redirects-handshake")
+	}
 	u, perr := url.Parse(body)
 	if perr == nil {
 		if u.Opaque != "" {
@@ -105,7 +128,7 @@ func runOpen(body string) vh.Outcome {
 	r.TakeDials()
 	r.ForgetConns()
 	hdr := http.Header{"X-Websocket-Shim-Version": {"1"}}
-	res := r.Call("POST", r.ShimPath+"/open", []byte(body), hdr, 15*time.Second)
+	res := r.CallHost(oc.Host, "POST", r.ShimPath+"/open", []byte(body), hdr, 15*time.Second)
 	dials := r.TakeDials()
 	if res.Panic != nil || res.TimedOut {
 		o.Err = fmt.Errorf("open with body %q: panic=%v unanswered=%v", body, res.Panic, res.TimedOut)
@@ -120,7 +143,15 @@ func runOpen(body string) vh.Outcome {
 	if len(dials) > 0 {
 		o.Classes = append(o.Classes, "dialed-backend")
 	}
-	if res.Status == 200 {
+	if res.Status == 200 && strings.Contains(body, "/redir-") {
+		// the backend itself redirected the handshake (to itself, else the dial check above has fired): nothing more to assert
+		o.Classes = append(o.Classes, "redirect-followed-to-backend")
+		var sm struct {
+			ID string `json:"id"`
+		}
+		jsonUnmarshal(res.Body, &sm)
+		r.Call("POST", r.ShimPath+"/close", shimrig.IDBody(sm.ID), nil, 5*time.Second)
+	} else if res.Status == 200 {
 		o.Classes = append(o.Classes, "session-opened")
 		// the handshake reached the backend: which path and query did it carry?
 		var sm struct {
@@ -138,7 +169,8 @@ func runOpen(body string) vh.Outcome {
 			o.Err = fmt.Errorf("open with body %q: handshake carried query %q, the supplied URL has %q", body, bc.Request.URL.RawQuery, u.RawQuery)
 			return o
 		}
-		if bc.Request.Host != r.Host {
+		if !oc.RewriteHost && bc.Request.Host != r.Host {
+			// (with --rewrite-websocket-host the Host header deliberately carries the client's host; the peer is still the backend)
 			o.Err = fmt.Errorf("open with body %q: handshake went to Host %q", body, bc.Request.Host)
 			return o
 		}
@@ -165,8 +197,13 @@ func jsonUnmarshal(b []byte, v any) { _ = jsonDecode(b, v) }
 
 func TestPropOpenConfinement(t *testing.T) {
 	vh.Rapid(t, vh.Scale(3000, 100000), func(rt *rapid.T) {
-		body := genBody(rt)
-		recO.Check(rt, body, func() vh.Outcome { return runOpen(body) })
+		oc := OpenCase{Body: genBody(rt), RewriteHost: rapid.Bool().Draw(rt, "rewriteHost"),
+			Host: rapid.SampledFrom([]string{"", "evil.example", "evil.example:8080", "front.example"}).Draw(rt, "requestHost")}
+		if rapid.IntRange(0, 5).Draw(rt, "redir") == 0 {
+			// a path on which the backend answers the handshake with a redirect
+			oc.Body = "ws://whatever.example" + rapid.SampledFrom([]string{"/redir-host/a", "/redir-evil/a", "/redir-rel/a"}).Draw(rt, "redirPath")
+		}
+		recO.Check(rt, &oc, func() vh.Outcome { return runOpenCase(&oc) })
 	})
 }
 
@@ -277,11 +314,11 @@ func TestPropPassThrough(t *testing.T) {
 }
 
 func TestReplay(t *testing.T) {
-	var body string
-	if ok, err := vh.ReplayCase("open-confinement", &body); err != nil {
+	var oc OpenCase
+	if ok, err := vh.ReplayCase("open-confinement", &oc); err != nil {
 		t.Fatalf("INFRA: %v", err)
 	} else if ok {
-		recO.Check(t, body, func() vh.Outcome { return runOpen(body) })
+		recO.Check(t, &oc, func() vh.Outcome { return runOpenCase(&oc) })
 		return
 	}
 	var c PassCase
